@@ -677,3 +677,100 @@ impl Model {
         }
     }
 }
+
+/// Dense cancel / crash script for the sanitizer phase (buffer discipline).
+pub fn gen_san_script(rng: &mut Rng) -> Script {
+    let lat = *rng.pick(&[Lat::Fixed(1000), Lat::Range(200, 1500), Lat::None]);
+    let cfg = Cfg {
+        sync_prob: 0.0,
+        block: None,
+        lat,
+        page_cache: rng.chance(0.3),
+        fs_seed: rng.next_u64(),
+    };
+    let nfiles = rng.range(1, 2) as usize;
+    let depth = *rng.pick(&[4u32, 8]);
+    let lmax = lat.max().as_nanos() as u64;
+    let mut acts = vec![];
+    let mut ud = 1u64;
+    let rounds = rng.range(2, 3);
+    for round in 0..=rounds {
+        let k = rng.range(2, depth.min(4) as u64);
+        let mut batch = vec![];
+        for _ in 0..k {
+            let file = rng.usize_below(nfiles);
+            let kind = if rng.coin() {
+                SqKind::Read {
+                    file,
+                    off: rng.below(6),
+                    n: *rng.pick(&[4u32, 8, 16]),
+                }
+            } else {
+                SqKind::Write {
+                    file,
+                    off: rng.below(8),
+                    n: *rng.pick(&[2u32, 5, 8]),
+                    key: rng.below(26) as u8,
+                }
+            };
+            acts.push(RAct::Push {
+                ring: 0,
+                ud,
+                kind,
+                flag: 0,
+            });
+            batch.push(ud);
+            ud += 1;
+        }
+        acts.push(RAct::Submit { ring: 0 });
+        if round == rounds {
+            // crash with the batch in flight, keep draining the dead ring
+            acts.push(RAct::Crash);
+            acts.push(RAct::Advance { ns: lmax + 1_000_000 });
+            acts.push(RAct::Drain { ring: 0, max: None });
+            acts.push(RAct::Push {
+                ring: 0,
+                ud,
+                kind: SqKind::Read {
+                    file: 0,
+                    off: 0,
+                    n: 16,
+                },
+                flag: 0,
+            });
+            ud += 1;
+            acts.push(RAct::Submit { ring: 0 });
+            acts.push(RAct::Advance { ns: lmax + 1 });
+            acts.push(RAct::Drain { ring: 0, max: None });
+            break;
+        }
+        // cancel one or two of them
+        for _ in 0..rng.range(1, 2) {
+            acts.push(RAct::Push {
+                ring: 0,
+                ud,
+                kind: SqKind::Cancel {
+                    target: *rng.pick(&batch),
+                },
+                flag: 0,
+            });
+            ud += 1;
+        }
+        acts.push(RAct::Submit { ring: 0 });
+        // observe the cancel CQEs first (partial drain), free, keep draining
+        acts.push(RAct::Drain {
+            ring: 0,
+            max: Some(rng.range(1, 2) as u32),
+        });
+        acts.push(RAct::Advance { ns: lmax / 2 });
+        acts.push(RAct::Drain { ring: 0, max: Some(1) });
+        acts.push(RAct::Advance { ns: lmax + 1 });
+        acts.push(RAct::Drain { ring: 0, max: None });
+    }
+    Script {
+        cfg,
+        depths: vec![depth],
+        nfiles,
+        acts,
+    }
+}
